@@ -161,17 +161,26 @@ theorem pre_pre (a b : List Char) (o) : pre a (pre b o) = pre (a ++ b) o := by
 
 theorem scanStr_plain (c : Char) (h1 : c ≠ '"') (h2 : c ≠ '\\') (rest : List Char) :
     scanStr (c :: rest) = pre [c] (scanStr rest) := by
-  simp [scanStr, h1, h2]
+  simp [scanStr, scanStrAux, h1, h2]
+
+theorem scanStrAux_true (x : Char) (h : x ≠ '"') (rest : List Char) :
+    scanStrAux true (x :: rest) = scanStrAux false (x :: rest) := by
+  simp [scanStrAux, h]
 
 theorem scanStr_bs (x : Char) (h : x ≠ '"') (rest : List Char) :
     scanStr ('\\' :: x :: rest) = pre ['\\'] (scanStr (x :: rest)) := by
-  rw [scanStr]
-  simp [h]
+  unfold scanStr
+  rw [scanStrAux]
+  simp only [Char.reduceEq, if_false, decide_true]
+  rw [scanStrAux_true x h]
 
 theorem scanStr_bs_quote (rest : List Char) :
     scanStr ('\\' :: '"' :: rest) = pre ['\\', '"'] (scanStr rest) := by
-  rw [scanStr]
-  simp
+  unfold scanStr
+  rw [scanStrAux]
+  simp only [Char.reduceEq, if_false, decide_true]
+  rw [scanStrAux]
+  simp [pre_pre]
 
 theorem hexDigit_plain : ∀ k : Fin 16, hexDigit k.val ≠ '"' ∧ hexDigit k.val ≠ '\\' := by decide
 
@@ -224,7 +233,7 @@ theorem scanStr_escChar (t : Esc) (c : Char) (tail : List Char)
       · -- the backslash
         have ht := h rfl rfl
         cases tail with
-        | nil => simp [scanStr, pre]
+        | nil => simp [scanStr, scanStrAux, pre]
         | cons x xs =>
           have hx : x ≠ '"' := fun e => ht (by simp [e])
           simp only [List.cons_append, List.nil_append]
@@ -232,7 +241,7 @@ theorem scanStr_escChar (t : Esc) (c : Char) (tail : List Char)
           by_cases hxb : x = '\\'
           · subst hxb
             cases xs with
-            | nil => simp [scanStr, pre]
+            | nil => simp [scanStr, scanStrAux, pre]
             | cons y ys =>
               by_cases hy : y = '"'
               · subst hy
@@ -266,5 +275,54 @@ theorem scanStr_escChar (t : Esc) (c : Char) (tail : List Char)
               · split
                 · exact scanStr_encodeRune c tail
                 · exact hplain (fun e => h1 (Or.inr (Or.inl e))) (fun e => h1 (Or.inl e))
+
+theorem escChar_head (t : Esc) (c : Char) : (escChar t c).head? ≠ some '"' := by
+  intro h
+  have hs := scanStr_escChar t c ['x', '"'] (by intro _ _; simp)
+  have h2 : scanStr ['x', '"'] = some (['x'], []) := by simp [scanStr, scanStrAux, pre]
+  rw [h2] at hs
+  cases he : escChar t c with
+  | nil => rw [he] at h; simp at h
+  | cons y ys =>
+    rw [he] at h hs
+    simp only [List.head?_cons, Option.some.injEq] at h
+    subst h
+    cases ys <;> simp [scanStr, scanStrAux, pre] at hs
+
+theorem escape_head (t : Esc) (s : List Char) (tail : List Char) (hs : s ≠ []) :
+    (escape t s ++ tail).head? ≠ some '"' := by
+  cases s with
+  | nil => exact absurd rfl hs
+  | cons c cs =>
+    simp only [escape, List.append_assoc]
+    have := escChar_head t c
+    have hl := escChar_length_pos t c
+    cases he : escChar t c with
+    | nil => rw [he] at hl; simp at hl
+    | cons y ys => rw [he] at this; simpa using this
+
+/-- the scanner finds the end of an escaped string — unless the `Escape` type is used and the text
+    ends in a backslash -/
+theorem scanStr_escape (t : Esc) (s : List Char) (rest : List Char)
+    (h : t = .backslash → s.getLast? ≠ some '\\') :
+    scanStr (escape t s ++ '"' :: rest) = some (escape t s, rest) := by
+  induction s with
+  | nil =>
+    cases rest <;> simp [escape, scanStr, scanStrAux]
+  | cons c cs ih =>
+    simp only [escape, List.append_assoc]
+    rw [scanStr_escChar t c _ (by
+      intro ht hc
+      cases cs with
+      | nil => exact absurd (by simp [hc]) (h ht)
+      | cons d ds => exact escape_head t (d :: ds) _ (by simp))]
+    rw [ih (by
+      intro ht
+      cases cs with
+      | nil => simp
+      | cons d ds =>
+        have := h ht
+        simpa [List.getLast?_cons_cons] using this)]
+    simp [pre]
 
 end Csvq.Json
